@@ -8,6 +8,8 @@ import (
 	"fmt"
 	"hash/fnv"
 	"os"
+	"path/filepath"
+	"sort"
 	"strings"
 
 	"github.com/dapr/kit/verifhook"
@@ -177,6 +179,24 @@ func main() {
 	}
 
 	thorough := fl.Tier == "thorough"
+	// 0. corpus: the minimised schedules of past findings run first
+	if dir := os.Getenv("VERIF_DIR"); dir != "" {
+		files, _ := filepath.Glob(filepath.Join(dir, "corpus", "C06", "*.json"))
+		sort.Strings(files)
+		for _, f := range files {
+			b, err := os.ReadFile(f)
+			var c Case
+			if err == nil {
+				err = json.Unmarshal(b, &c)
+			}
+			if err != nil {
+				res.Note("corpus file unreadable: " + f)
+				continue
+			}
+			r.eval(c)
+			res.Hit("case:corpus")
+		}
+	}
 	// 1. forced schedules: every (point, op) pair; thorough: every (point, op, op2) triple
 	for _, c := range forcedCases(thorough || fl.Search) {
 		r.eval(c)
